@@ -8,5 +8,6 @@ CONSTANTS
   DevD6 = FALSE
   DevD7 = FALSE
   DevD14 = FALSE
+  DevGiveUp = FALSE
 INVARIANT Emit
 CHECK_DEADLOCK FALSE
